@@ -113,14 +113,28 @@ def rule_MP2(rep, prog):
     rep.require(rid, ok, sub[0].loc if sub else fn.file, fn.name, "todo-signal",
                 "_dispatch_apply_invoke2 must subtract its done count from da_todo with release and signal the event exactly when the remaining count is 0",
                 sample={"sub": [(s.d["rmw"], s.d["ord"]) for s in sub], "signals": len(sig)})
-    # the WAIT flag value is what _dispatch_apply_invoke_and_wait passes (the macro is local to apply.c)
-    fw = prog.fn("_dispatch_apply_invoke_and_wait")
-    cw = calls_named(fw, "_dispatch_apply_invoke2")
-    W = arg_const(fw, cw[0], 1) if cw else None
-    if not W:
-        rep.unknown(rid, "cannot determine DISPATCH_APPLY_INVOKE_WAIT from _dispatch_apply_invoke_and_wait")
-        return
+    # the WAIT flag (a macro local to apply.c) is the single invoke-flag bit under which _dispatch_apply_invoke2 waits for the completion event; the caller that
+    # submits the apply (directly or through the _dispatch_apply_invoke_and_wait trampoline) must pass it
     wait = calls_named(fn, "_dispatch_thread_event_wait")
+    W = None
+    for w_ in wait:
+        for iid, tv in paths.dom_ctx(fn, w_).truth.items():
+            ii = fn.insts[iid]
+            if ii.op == "icmp" and ii.d["pred"] in ("eq", "ne") and ii.ops[1][0] == "c" and ii.ops[1][1] == 0 and tv == (ii.d["pred"] == "ne"):
+                a_ = fn.inst(ii.ops[0])
+                if a_ is not None and a_.op == "and" and a_.ops[1][0] == "c" and tuple(a_.ops[0][:2]) == ("a", 1):
+                    W = a_.ops[1][1]
+    passers = [(g, c) for g in prog.all_functions() for c in calls_named(g, "_dispatch_apply_invoke2")
+               if g is not fn and (arg_const(g, c, 1) or 0) & (W or 0)]
+    if W and not passers:
+        rep.violation(rid, fn.file, fn.name, "nobody-passes-invoke-wait",
+                      "no caller of _dispatch_apply_invoke2 passes the flag under which it waits for the completion event: the thread that called dispatch_apply "
+                      "returns as soon as its own share of the iterations is done, before the helpers have finished theirs")
+        return
+    if not W or not passers:
+        rep.unknown(rid, "cannot determine DISPATCH_APPLY_INVOKE_WAIT (flag guarding the completion wait in _dispatch_apply_invoke2: %s; callers passing it: %d)" % (W, len(passers)))
+        return
+    waiters = {g.name for g, c in passers}
     wt = [i for i in fn.all_insts() if i.op == "icmp" and i.d["pred"] in ("ne", "eq") and i.ops[1][0] == "c" and i.ops[1][1] == 0 and
           fn.inst(i.ops[0]) is not None and fn.inst(i.ops[0]).op == "and" and fn.inst(i.ops[0]).ops[1][0] == "c" and fn.inst(i.ops[0]).ops[1][1] == W]
     res = paths.walk(fn, entry_point(fn), lambda i: False, avoid=lambda i: i in wait)
@@ -148,7 +162,7 @@ def rule_MP2(rep, prog):
                 "dispatch_apply_f(0, ...) reaches %s: with zero iterations nothing may be allocated or invoked (the serial fallback would run index 0 once)"
                 % (hits[0][1].callee if hits else None), sample={"paths": len(res)})
     # every non-trivial return goes through the invoke-and-wait or a dispatch_sync_f / barrier sync of the serial body
-    ends = [i for i in fn.all_insts() if i.op == "call" and i.callee in ("_dispatch_apply_f", "_dispatch_apply_invoke_and_wait", "dispatch_sync_f", "dispatch_barrier_sync_f", "_dispatch_apply_serial", "dispatch_async_and_wait_f", "_dispatch_barrier_sync_f", "_dispatch_sync_f")]
+    ends = [i for i in fn.all_insts() if i.op == "call" and i.callee in waiters | {"_dispatch_apply_f", "_dispatch_apply_invoke_and_wait", "dispatch_sync_f", "dispatch_barrier_sync_f", "_dispatch_apply_serial", "dispatch_async_and_wait_f", "_dispatch_barrier_sync_f", "_dispatch_sync_f"}]
     ctx2 = paths.PathCtx(fn)
     ctx2.nonnull.add(("a", 0))
     res = paths.walk(fn, entry_point(fn), lambda i: False, avoid=lambda i: i in ends, ctx=ctx2)
